@@ -10,6 +10,7 @@ import (
 	"fmt"
 	"io"
 	"os"
+	"runtime"
 	"strings"
 	"time"
 
@@ -32,6 +33,8 @@ type scPair struct {
 	ea, eb *end
 	ab, ba *halfPipe
 	ka, kb crypto.PrivKeyEd25519
+	hp     *handPeer // side a is the harness's hand-made peer (op scp); a == nil then
+	deadW  map[string]bool
 }
 
 type hsResult struct {
@@ -168,11 +171,72 @@ func (e *exec) streamOp(toks []string) string {
 		p.ba.setNonblock(true)
 		e.sp = p
 		return "ok"
+	case "scp": // real side b, hand-made peer on side a
+		e.closeAll()
+		ea, eb, ab, ba := duplex(atoi(argS(toks, "k")), uint32(atoi(argS(toks, "seed"))), true, argS(toks, "j") == "1")
+		p := &scPair{ea: ea, eb: eb, ab: ab, ba: ba, ka: crypto.GenPrivKeyEd25519(), kb: crypto.GenPrivKeyEd25519()}
+		cb := runHS(eb, p.kb)
+		hp, err := handHandshake(ea, p.ka)
+		if err != nil {
+			ea.Close()
+			eb.Close()
+			return "fail"
+		}
+		select {
+		case r := <-cb:
+			if r.err != nil || !r.sc.RemotePubKey().Equals(p.ka.PubKey()) {
+				return "fail"
+			}
+			p.b = r.sc
+		case <-time.After(3 * time.Second):
+			ea.Close()
+			eb.Close()
+			return "timeout"
+		}
+		p.hp = hp
+		p.ab.setNonblock(true)
+		p.ba.setNonblock(true)
+		e.sp = p
+		return "ok"
+	case "seal": // a sealed (typeEncrypt) frame from the hand-made peer: plaintext = be32(lf) ++ d
+		if e.sp == nil || e.sp.hp == nil {
+			return "dead"
+		}
+		sp, ok := parseSpec(argS(toks, "d"))
+		if !ok {
+			return "bad-op"
+		}
+		lf := atoi(argS(toks, "lf"))
+		plain := append([]byte{byte(lf >> 24), byte(lf >> 16), byte(lf >> 8), byte(lf)}, sp.bytes()...)
+		if argS(toks, "short") != "" { // a plaintext of fewer than 4 bytes
+			plain = plain[:atoi(argS(toks, "short"))]
+		}
+		flip := -1
+		if argS(toks, "flip") != "" {
+			flip = atoi(argS(toks, "flip"))
+		}
+		e.sp.ab.write(e.sp.hp.sealedFrame(atoi(argS(toks, "idx")), plain, atoi(argS(toks, "cut")), flip))
+		return "ok"
+	case "wf": // Write while the transport lets `k` more frames through and then fails
+		sc, out, _, ok := e.side(toks)
+		sp, ok2 := parseSpec(argS(toks, "d"))
+		if !ok || !ok2 || sc == nil {
+			return "dead"
+		}
+		out.setFailAt(atoi(argS(toks, "k")))
+		n, err := sc.Write(sp.bytes())
+		er := "none"
+		if err != nil {
+			er = "write"
+		} else {
+			out.disarm() // the allowance is per op
+		}
+		return fmt.Sprintf("n=%d err=%s", n, er)
 	case "w":
 		sc, out, _, ok := e.side(toks)
 		ds, _ := hx.Arg(toks, "d")
 		sp, ok2 := parseSpec(ds)
-		if !ok || !ok2 {
+		if !ok || !ok2 || sc == nil {
 			return "dead"
 		}
 		off := out.written()
@@ -185,7 +249,7 @@ func (e *exec) streamOp(toks []string) string {
 		return fmt.Sprintf("n=%d err=%s frames=%s fit=%v", n, er, frames, fit)
 	case "r":
 		sc, _, _, ok := e.side(toks)
-		if !ok {
+		if !ok || sc == nil {
 			return "dead"
 		}
 		ns, _ := hx.Arg(toks, "n")
@@ -193,11 +257,16 @@ func (e *exec) streamOp(toks []string) string {
 		for i := range buf {
 			buf[i] = 0xEE
 		}
+		var m0, m1 runtime.MemStats
+		runtime.ReadMemStats(&m0)
 		m, err := sc.Read(buf)
+		runtime.ReadMemStats(&m1)
 		if m < 0 || m > len(buf) {
 			return fmt.Sprintf("n=%d err=range", m)
 		}
-		return fmt.Sprintf("n=%d err=%s d=%s", m, readErrClass(err), fnvOf(buf[:m]))
+		// what Read allocated beyond the caller's buffer; "big" = more than 1 MiB (the fixed buffers are < 200 KiB)
+		big := m1.TotalAlloc-m0.TotalAlloc > 1<<20
+		return fmt.Sprintf("n=%d err=%s d=%s big=%v", m, readErrClass(err), fnvOf(buf[:m]), big)
 	case "inj":
 		_, _, in, ok := e.side(toks)
 		if !ok {
@@ -212,7 +281,20 @@ func (e *exec) streamOp(toks []string) string {
 			return "bad-op"
 		}
 		// the claim about the codec is checked against the real library, so the model's codec oracle is snappy itself
+		ann := 0
 		if l <= len(pay) {
+			if dl, err := snappy.DecodedLen(pay[:l]); err == nil {
+				ann = dl
+			}
+		}
+		if argS(toks, "ann") != "" && fmt.Sprint(ann) != argS(toks, "ann") {
+			return "bad-op" // ann = the decoded length the payload announces (snappy.DecodedLen), 0 if none
+		}
+		if l <= len(pay) && ann > 1<<21 {
+			if claim != "err" { // a tiny payload announcing megabytes cannot be valid; not decoded here (it would allocate)
+				return "bad-op"
+			}
+		} else if l <= len(pay) {
 			dec, err := snappy.Decode(nil, pay[:l])
 			if claim == "err" {
 				if err == nil {
